@@ -233,7 +233,13 @@ func tupleElem(v Val, i int) Val {
 	for j := 0; j < tp.Len(); j++ {
 		n := len(layoutOf(tp.At(j).Type()))
 		if j == i {
-			return Val{T: tp.At(j).Type(), C: v.C[off : off+n]}
+			r := Val{T: tp.At(j).Type(), C: v.C[off : off+n]}
+			if j == 0 && v.LV != nil {
+				if _, ok := r.T.Underlying().(*types.Pointer); ok {
+					r.LV = v.LV // comma-ok type assertion to a pointer type that is an interior address
+				}
+			}
+			return r
 		}
 		off += n
 	}
@@ -281,6 +287,9 @@ type State struct {
 	mapsDirty bool
 	panicPos  string
 	panicWhat string
+	interior  map[*Term][]*LVal   // meta-level addresses of interior pointers that went through memory or an interface (copy-on-write)
+	tapes     map[int][]TapeElem  // element-level codec model (tape.go)
+	cursors   map[int]*tapeCursor
 }
 
 type dryInfo struct {
@@ -312,6 +321,14 @@ func (s *State) clone() *State {
 	for k, v := range s.ghost {
 		n.ghost[k] = v
 	}
+	if s.tapes != nil {
+		n.tapes = make(map[int][]TapeElem, len(s.tapes))
+		for k, v := range s.tapes {
+			n.tapes[k] = v
+		}
+	}
+	n.cursors = s.cursors // copy-on-write (setCursor)
+	n.interior = s.interior // copy-on-write (addInterior)
 	n.pc = append([]*Term(nil), s.pc...)
 	n.writes = append([]WriteRec(nil), s.writes...)
 	n.notes = append([]string(nil), s.notes...)
